@@ -16,6 +16,8 @@ structure IsChain (id : Nat) (c : List Entry) : Prop where
   linked : Linked c.reverse
   hashes : c.Pairwise (fun a b => a.hash ≠ b.hash)
   lid    : ∀ e ∈ c, e.logId = id
+  /-- every entry sits at the address of its content (what an honest writer's `Append` produces) -/
+  canon  : ∀ e ∈ c, e.hashOk = true
 
 instance decLinked : (r : List Entry) → Decidable (Linked r)
   | [] => isTrue trivial
@@ -131,12 +133,13 @@ theorem load_single_head_chain {id : Nat} {c : List Entry} (hc : IsChain id c) (
   have hf0 := hf
   have hf : ∀ e, e ∈ goodFetch acl id fetch hd ↔ e ∈ c.drop j := by
     intro e
-    unfold goodFetch ownFetch
-    rw [List.mem_filter, List.mem_filter, hf0 e]
+    unfold goodFetch goodFetch1 ownFetch
+    rw [List.mem_filter, List.mem_filter, List.mem_filter, hf0 e]
     constructor
-    · exact fun h => h.1.1
+    · exact fun h => h.1.1.1
     · intro h
-      exact ⟨⟨h, by simpa using hc.lid e (List.mem_of_mem_drop h)⟩, hacc e (List.mem_of_mem_drop h)⟩
+      exact ⟨⟨⟨h, by simpa using hc.lid e (List.mem_of_mem_drop h)⟩, hacc e (List.mem_of_mem_drop h)⟩,
+        hc.canon e (List.mem_of_mem_drop h)⟩
   have hsubc : ∀ e ∈ goodFetch acl id fetch hd, e ∈ c := fun e he => List.mem_of_mem_drop ((hf e).mp he)
   have hF : Fetched c (Log.empty id) (goodFetch acl id fetch hd) := ⟨hsubc, fun e he => hc.lid e (hsubc e he)⟩
   obtain ⟨L1, hI1, hnd1, hent, L', hload, _, hv⟩ :=
